@@ -38,6 +38,8 @@ type SpecFun struct {
 	File    string
 	Line    int
 	Trigger bool
+	Rec     bool     // recursive: emitted as define-fun-rec with the heaps it reads as explicit parameters
+	RecKeys []string // heap keys read by the body (computed on first use)
 	Exec    string // Go expression implementing an uninterpreted spec function at run time (replay only)
 }
 
@@ -67,6 +69,7 @@ type FuncContract struct {
 	Trusted  string // reason why extern
 	NoPanic  bool
 	Ghosts   []*Clause // ghost statements anchored in the body
+	Implements   []string    // names of contracts (same package) whose clauses this function must also satisfy
 	ReplayInputs [][2]string // name, spec expression (evaluated at entry)
 	ReplaySetup  []string    // Go statements building the receiver / environment
 }
@@ -107,7 +110,7 @@ type EffectDecl struct {
 	File   string
 }
 
-var keywordRe = regexp.MustCompile(`^(audit|nonglobal|type|exec|replay-input|replay-setup|pred|fun|axiom|func|extern|requires|ensures|modifies|loop|behavior|props|partial|pure|inline|ghost|assert-at|assume-at|effects|trusted|nopanic|panics-when|ensures-on-panic|package|const|lemma)\b`)
+var keywordRe = regexp.MustCompile(`^(implements|audit|nonglobal|type|exec|replay-input|replay-setup|pred|fun|axiom|func|extern|requires|ensures|modifies|loop|behavior|props|partial|pure|inline|ghost|assert-at|assume-at|effects|trusted|nopanic|panics-when|ensures-on-panic|package|const|lemma)\b`)
 
 type rawLine struct {
 	text string
@@ -310,6 +313,11 @@ func (cs *Contracts) loadFile(path string) error {
 			cur.Inline = true
 		case "nopanic":
 			cur.NoPanic = true
+		case "implements":
+			if cur == nil {
+				return fail(fmt.Errorf("implements outside func"))
+			}
+			cur.Implements = append(cur.Implements, splitList(rest)...)
 		case "replay-input":
 			parts := strings.SplitN(rest, "=", 2)
 			if cur == nil || len(parts) != 2 {
@@ -451,15 +459,20 @@ var specFunRe = regexp.MustCompile(`^([A-Za-z_][A-Za-z0-9_]*)\s*\(([^)]*)\)\s*([
 
 func parseSpecFun(kw, rest string) (*SpecFun, error) {
 	opaque := false
+	rec := false
 	if strings.HasPrefix(rest, "opaque ") {
 		opaque = true
 		rest = strings.TrimSpace(rest[7:])
+	}
+	if strings.HasPrefix(rest, "rec ") {
+		rec = true
+		rest = strings.TrimSpace(rest[4:])
 	}
 	m := specFunRe.FindStringSubmatch(rest)
 	if m == nil {
 		return nil, fmt.Errorf("bad %s declaration: %q", kw, rest)
 	}
-	sf := &SpecFun{Name: m[1], Text: rest, Opaque: opaque}
+	sf := &SpecFun{Name: m[1], Text: rest, Opaque: opaque, Rec: rec}
 	for _, p := range splitList(m[2]) {
 		f := strings.Fields(p)
 		if len(f) != 2 {
